@@ -95,15 +95,20 @@ Proof.
     apply in_app_or in I. destruct I as [I | I]; [apply (blanks_notin cBang _ ltac:(discriminate) I)|].
     apply in_app_or in I. destruct I as [[I | []] | I]; [discriminate I | apply (blanks_notin cBang _ ltac:(discriminate) I)]. }
   assert (B : body (render_cont c a) = render_pieces (ch_pieces c) ++ blanks (ch_trail c) ++ [cEq] ++ blanks a).
-  { unfold body, before, render_cont. destruct (ch_comment c) as [t|]; cbn [render_comment].
-    - rewrite !app_assoc. rewrite <- !app_assoc in NB. rewrite !app_assoc in NB.
-      rewrite partition_found by exact NB. cbn [fst]. rewrite <- !app_assoc. reflexivity.
-    - rewrite app_nil_r. rewrite !app_assoc. rewrite <- !app_assoc in NB. rewrite !app_assoc in NB.
-      rewrite partition_absent by exact NB. cbn [fst]. rewrite <- !app_assoc. reflexivity. }
+  { unfold body, before, render_cont.
+    set (X := render_pieces (ch_pieces c) ++ blanks (ch_trail c) ++ [cEq] ++ blanks a) in *.
+    replace (render_pieces (ch_pieces c) ++ blanks (ch_trail c) ++ [cEq] ++ blanks a ++ render_comment (ch_comment c))
+      with (X ++ render_comment (ch_comment c)) by (unfold X; rewrite <- !app_assoc; reflexivity).
+    destruct (ch_comment c) as [t|]; cbn [render_comment].
+    - rewrite partition_found by exact NB. reflexivity.
+    - rewrite app_nil_r. rewrite partition_absent by exact NB. reflexivity. }
   split; [rewrite B; destruct (ch_comment c); rewrite ?app_nil_r; reflexivity|]. split.
   - unfold has_eq. rewrite B. apply existsb_exists. exists cEq. split; [|apply Ascii.eqb_refl].
     apply in_or_app. right. apply in_or_app. right. left. reflexivity.
-  - rewrite B. unfold before. rewrite app_assoc. rewrite partition_found; [reflexivity|].
+  - rewrite B. unfold before.
+    replace (render_pieces (ch_pieces c) ++ blanks (ch_trail c) ++ [cEq] ++ blanks a)
+      with ((render_pieces (ch_pieces c) ++ blanks (ch_trail c)) ++ cEq :: blanks a) by (rewrite <- !app_assoc; reflexivity).
+    rewrite partition_found; [reflexivity|].
     intros I. apply in_app_or in I. destruct I as [I | I]; [exact (pieces_notin _ cEq first P (or_intror eq_refl) I)|].
     apply (blanks_notin cEq _ ltac:(discriminate) I).
 Qed.
@@ -130,6 +135,9 @@ Proof.
 Qed.
 
 (* ---------- gluing the chunks of one logical line ---------- *)
+Lemma glue_false acc rest : glue acc false rest = (acc, rest).
+Proof. destruct rest; reflexivity. Qed.
+
 Lemma glue_chunks more : forall (acc : str) (c : chunk) (a : nat) (rest : list str),
   forallb (fun ac => cont_chunk_ok (snd ac)) more = true -> cont_chunk_ok c = true ->
   glue acc true (render_chunks c more a ++ rest) =
@@ -137,7 +145,7 @@ Lemma glue_chunks more : forall (acc : str) (c : chunk) (a : nat) (rest : list s
 Proof.
   induction more as [|[a' c'] r IH]; intros acc c a rest M C.
   - cbn [render_chunks app glue map concat]. unfold cont_chunk_ok in C. apply andb_true_iff in C. destruct C as [P _].
-    destruct (body_last c false P) as (_ & H & B). rewrite H, B. rewrite app_nil_r. reflexivity.
+    destruct (body_last c false P) as (_ & H & B). rewrite H, B. rewrite glue_false, app_nil_r. reflexivity.
   - cbn [render_chunks app glue]. cbn [forallb snd] in M. apply andb_true_iff in M. destruct M as [C' M].
     pose proof C as C0. unfold cont_chunk_ok in C. apply andb_true_iff in C. destruct C as [P _].
     destruct (body_cont c a false P) as (_ & H & B). rewrite H, B.
@@ -162,3 +170,190 @@ Proof.
     all: try (destruct (Ascii.eqb _ a); cbn; destruct S0 as [-> | [-> | ->]]; reflexivity). }
   unfold is_free_text. rewrite (H _ (or_introl eq_refl)), (H _ (or_intror eq_refl)). reflexivity.
 Qed.
+
+(* ---------- splitting the glued text of a logical line ---------- *)
+Definition chunk_text (c : chunk) : str := render_pieces (ch_pieces c) ++ blanks (ch_trail c).
+
+Lemma cont_text_ends (cs : list chunk) : forallb cont_chunk_ok cs = true -> ends_token (concat (map chunk_text cs)).
+Proof.
+  induction cs as [|c r IH]; intros H; [left; reflexivity|].
+  cbn [forallb] in H. apply andb_true_iff in H. destruct H as [C R]. cbn [map concat].
+  unfold cont_chunk_ok in C. apply andb_true_iff in C. destruct C as [P T]. unfold chunk_text at 1.
+  destruct (ch_pieces c) as [|p ps] eqn:E.
+  - apply Nat.leb_le in T. unfold render_pieces. cbn [map concat app]. destruct (ch_trail c) as [|n]; [lia|].
+    right. cbn [blanks repeat app]. eexists. reflexivity.
+  - rewrite <- app_assoc. apply render_pieces_ends; [exact P|].
+    destruct (ch_trail c) as [|n]; [cbn [blanks repeat app]; exact (IH R) | right; cbn [blanks repeat app]; eexists; reflexivity].
+Qed.
+
+Lemma blanks_ends n s : ends_token s -> ends_token (blanks n ++ s).
+Proof. intros E. destruct n as [|n]; [exact E | right; cbn [blanks repeat app]; eexists; reflexivity]. Qed.
+
+Lemma split_cont_text (cs : list chunk) : forallb cont_chunk_ok cs = true ->
+  split_aux [] (concat (map chunk_text cs)) = flat_map (fun c => map snd (ch_pieces c)) cs.
+Proof.
+  induction cs as [|c r IH]; intros H; [reflexivity|].
+  cbn [forallb] in H. apply andb_true_iff in H. destruct H as [C R]. cbn [map concat flat_map].
+  pose proof C as C0. unfold cont_chunk_ok in C. apply andb_true_iff in C. destruct C as [P _].
+  unfold chunk_text at 1. rewrite <- app_assoc.
+  rewrite (split_pieces _ false) by (try exact P; apply blanks_ends; apply cont_text_ends; exact R).
+  rewrite split_aux_blanks_nil. rewrite IH by exact R. reflexivity.
+Qed.
+
+Lemma first_chunk_split (c : chunk) (cs : list chunk) : first_chunk_ok c = true -> forallb cont_chunk_ok cs = true ->
+  split_ws (chunk_text c ++ concat (map chunk_text cs)) = map snd (ch_pieces c) ++ flat_map (fun c => map snd (ch_pieces c)) cs.
+Proof.
+  intros F R. unfold first_chunk_ok in F. destruct (ch_pieces c) as [|[[|n] t] ps] eqn:E; try discriminate.
+  apply andb_true_iff in F. destruct F as [F _]. apply andb_true_iff in F. destruct F as [T P].
+  unfold split_ws, chunk_text. rewrite E. rewrite <- app_assoc.
+  assert (PO : pieces_ok true ((0%nat, t) :: ps) = true).
+  { change (pieces_ok true ((0%nat, t) :: ps)) with (piece_ok true (0%nat, t) && pieces_ok false ps). unfold piece_ok. cbn [fst snd orb].
+    rewrite T, P. reflexivity. }
+  rewrite (split_pieces _ true) by (try exact PO; apply blanks_ends; apply cont_text_ends; exact R).
+  rewrite split_aux_blanks_nil, split_cont_text by exact R. reflexivity.
+Qed.
+
+(* ---------- the first physical line of an instruction ---------- *)
+Definition after_token (s : str) : Prop :=
+  ends_token s \/ (exists r, s = cEq :: r) \/ (exists r, s = cBang :: r).
+
+Lemma render_pieces_blank_first p ps s : pieces_ok false (p :: ps) = true -> exists r, render_pieces (p :: ps) ++ s = " "%char :: r.
+Proof.
+  intros P. destruct p as [n t].
+  change (pieces_ok false ((n, t) :: ps)) with (piece_ok false (n, t) && pieces_ok false ps) in P.
+  apply andb_true_iff in P. destruct P as [P _]. unfold piece_ok in P. cbn [fst snd orb] in P.
+  apply andb_true_iff in P. destruct P as [_ N]. apply Nat.leb_le in N.
+  unfold render_pieces. cbn [map concat]. unfold render_piece at 1. cbn [fst snd].
+  destruct n as [|n]; [lia|]. cbn [blanks repeat app]. eexists. reflexivity.
+Qed.
+
+Lemma rest_shape ps n tail : pieces_ok false ps = true ->
+  (tail = [] \/ (exists r, tail = cEq :: r) \/ (exists r, tail = cBang :: r)) ->
+  after_token (render_pieces ps ++ blanks n ++ tail).
+Proof.
+  intros P Ht. destruct ps as [|p ps'].
+  - unfold render_pieces. cbn [map concat app]. destruct n as [|n].
+    + cbn [blanks repeat app]. destruct Ht as [-> | [H | H]]; [left; left; reflexivity | right; left; exact H | right; right; exact H].
+    + left. right. cbn [blanks repeat app]. eexists. reflexivity.
+  - left. right. apply render_pieces_blank_first. exact P.
+Qed.
+
+(* shape of the first physical line of an instruction: first character, free-text test *)
+Lemma first_line_facts (c : chunk) (tail : str) : first_chunk_ok c = true ->
+  (tail = [] \/ (exists r, tail = cEq :: r) \/ (exists r, tail = cBang :: r)) ->
+  (exists x r, render_pieces (ch_pieces c) ++ blanks (ch_trail c) ++ tail = x :: r /\ is_blank x = false) /\
+  is_free_text (render_pieces (ch_pieces c) ++ blanks (ch_trail c) ++ tail) = false /\ pieces_ok true (ch_pieces c) = true.
+Proof.
+  intros F Ht. unfold first_chunk_ok in F. destruct (ch_pieces c) as [|[[|n] t] ps] eqn:E; try discriminate.
+  apply andb_true_iff in F. destruct F as [F NF]. apply andb_true_iff in F. destruct F as [T P].
+  apply negb_true_iff in NF.
+  assert (PO : pieces_ok true ((0%nat, t) :: ps) = true).
+  { change (pieces_ok true ((0%nat, t) :: ps)) with (piece_ok true (0%nat, t) && pieces_ok false ps). unfold piece_ok. cbn [fst snd orb].
+    rewrite T, P. reflexivity. }
+  assert (R : render_pieces ((0%nat, t) :: ps) ++ blanks (ch_trail c) ++ tail = t ++ (render_pieces ps ++ blanks (ch_trail c) ++ tail)).
+  { unfold render_pieces. cbn [map concat]. unfold render_piece at 1. cbn [fst snd blanks repeat app]. rewrite <- app_assoc. reflexivity. }
+  split; [|split; [|exact PO]].
+  - pose proof T as T0. cut (exists x r, t ++ (render_pieces ps ++ blanks (ch_trail c) ++ tail) = x :: r /\ is_blank x = false);
+      [intros (x & r & Hx & Hb); exists x, r; split; [etransitivity; [exact R | exact Hx] | exact Hb]|]. unfold token_ok in T. apply andb_true_iff in T. destruct T as [Tc Tn].
+    destruct t as [|x r]; [cbn in Tn; discriminate Tn|]. exists x. eexists. split; [reflexivity|].
+    cbn [forallb] in Tc. apply andb_true_iff in Tc. destruct Tc as [Tx _]. apply (tok_char_props x Tx).
+  - etransitivity; [apply (f_equal is_free_text R)|]. rewrite is_free_text_token; [exact NF | exact T | apply rest_shape; assumption].
+Qed.
+
+(* ---------- one logical line ---------- *)
+Lemma lex_skip_junk f j r : junk_ok j = true -> lex_fuel (S f) (j :: r) = lex_fuel f r.
+Proof. intros J. cbn [lex_fuel]. destruct j as [|c s]; [reflexivity|]. cbn [junk_ok] in J. rewrite J. reflexivity. Qed.
+
+Lemma lex_skip_junks js : forall f r, forallb junk_ok js = true -> lex_fuel (length js + f) (js ++ r) = lex_fuel f r.
+Proof.
+  induction js as [|j js IH]; intros f r H; [reflexivity|].
+  cbn [forallb] in H. apply andb_true_iff in H. destruct H as [J Js].
+  cbn [length Nat.add app]. rewrite lex_skip_junk by exact J. apply IH. exact Js.
+Qed.
+
+Lemma comment_tail (c : option str) : render_comment c = [] \/ (exists r, render_comment c = cEq :: r) \/ (exists r, render_comment c = cBang :: r).
+Proof. destruct c as [t|]; [right; right; eexists; reflexivity | left; reflexivity]. Qed.
+
+Lemma lex_one_line f first more aeq rest :
+  first_chunk_ok first = true -> forallb (fun ac => cont_chunk_ok (snd ac)) more = true ->
+  lex_fuel (S f) (render_chunks first more aeq ++ rest) =
+  (map snd (ch_pieces first) ++ flat_map (fun c => map snd (ch_pieces c)) (map snd more)) :: lex_fuel f rest.
+Proof.
+  intros F M. destruct more as [|[a c] r].
+  - (* single physical line *)
+    cbn [render_chunks app map flat_map]. rewrite app_nil_r.
+    destruct (first_line_facts first (render_comment (ch_comment first)) F (comment_tail _)) as ((x & s & E & B) & NF & PO).
+    unfold render_last. cbn [lex_fuel]. rewrite E, B. rewrite <- E.
+    fold (render_last first).
+    destruct (body_last first true PO) as (Bd & He & _).
+    unfold continues. unfold render_last at 1 2. rewrite NF. fold (render_last first). rewrite He. cbn [negb andb].
+    f_equal. rewrite Bd. unfold split_ws.
+    rewrite <- (app_nil_r (blanks (ch_trail first))).
+    rewrite (split_pieces _ true) by (try exact PO; apply blanks_ends; left; reflexivity).
+    rewrite split_aux_blanks_nil. cbn [split_aux]. apply app_nil_r.
+  - (* continued *)
+    cbn [render_chunks app].
+    assert (Tl : [cEq] ++ blanks aeq ++ render_comment (ch_comment first) = [] \/
+                 (exists r0, [cEq] ++ blanks aeq ++ render_comment (ch_comment first) = cEq :: r0) \/
+                 (exists r0, [cEq] ++ blanks aeq ++ render_comment (ch_comment first) = cBang :: r0))
+      by (right; left; eexists; reflexivity).
+    destruct (first_line_facts first _ F Tl) as ((x & s & E & B) & NF & PO).
+    unfold render_cont. cbn [lex_fuel]. rewrite E, B. rewrite <- E.
+    fold (render_cont first aeq).
+    destruct (body_cont first aeq true PO) as (_ & He & Bf).
+    unfold continues. unfold render_cont at 1 2. rewrite NF. fold (render_cont first aeq). rewrite He. cbn [negb andb].
+    rewrite Bf.
+    cbn [forallb snd] in M. apply andb_true_iff in M. destruct M as [Cc Mr].
+    rewrite (glue_chunks r _ c a rest Mr Cc).
+    f_equal. change (map snd ((a, c) :: r)) with (c :: map snd r).
+    apply (first_chunk_split first (c :: map snd r)); [exact F|]. cbn [forallb]. rewrite Cc. cbn [andb].
+    clear -Mr. induction r as [|[a' c'] r IH]; [reflexivity|]. cbn [forallb map snd] in *. apply andb_true_iff in Mr. destruct Mr as [A Bq].
+    rewrite A, IH by exact Bq. reflexivity.
+Qed.
+
+Lemma render_chunks_length first more aeq : length (render_chunks first more aeq) = S (length more).
+Proof. revert first aeq. induction more as [|[a c] r IH]; intros first aeq; cbn [render_chunks length]; [reflexivity|]. rewrite IH. reflexivity. Qed.
+
+(* ---------- C05: the whole file ---------- *)
+Lemma lex_fuel_file (f : list lline) : forall fuel, forallb lline_ok f = true -> (length (render_file f) <= fuel)%nat ->
+  lex_fuel fuel (render_file f) = map tokens_of f.
+Proof.
+  induction f as [|l r IH]; intros fuel H L.
+  - cbn [render_file flat_map map]. destruct fuel; reflexivity.
+  - cbn [forallb] in H. apply andb_true_iff in H. destruct H as [Hl Hr].
+    unfold lline_ok in Hl. apply andb_true_iff in Hl. destruct Hl as [Hl J]. apply andb_true_iff in Hl. destruct Hl as [F M].
+    assert (L' : (Datatypes.length (ll_junk l) + (S (Datatypes.length (ll_more l)) + Datatypes.length (render_file r)) <= fuel)%nat).
+    { change (render_file (l :: r)) with (render_line l ++ render_file r) in L. unfold render_line in L.
+      rewrite !app_length, render_chunks_length in L. lia. }
+    change (render_file (l :: r)) with (render_line l ++ render_file r). unfold render_line. rewrite <- app_assoc.
+    set (nj := Datatypes.length (ll_junk l)) in *.
+    replace fuel with (nj + (S (fuel - nj - 1)))%nat by lia.
+    unfold nj at 1. rewrite lex_skip_junks by exact J.
+    rewrite lex_one_line by assumption.
+    cbn [map]. unfold tokens_of at 1, all_chunks. cbn [flat_map]. f_equal.
+    apply IH; [exact Hr | lia].
+Qed.
+
+Theorem lex_render (f : list lline) : forallb lline_ok f = true -> lex (render_file f) = map tokens_of f.
+Proof. intros H. unfold lex. apply lex_fuel_file; [exact H | lia]. Qed.
+
+(* two layouts of the same instructions are read identically *)
+Corollary lex_layout_independent (f1 f2 : list lline) :
+  forallb lline_ok f1 = true -> forallb lline_ok f2 = true -> map tokens_of f1 = map tokens_of f2 ->
+  lex (render_file f1) = lex (render_file f2).
+Proof. intros H1 H2 E. rewrite !lex_render by assumption. exact E. Qed.
+
+(* the dispatch word does not depend on the letter case of the keyword *)
+Lemma upper_idem s : upper (upper s) = upper s.
+Proof.
+  unfold upper. rewrite map_map. apply map_ext. intros c.
+  destruct c as [[] [] [] [] [] [] [] []]; vm_compute; reflexivity.
+Qed.
+Lemma dispatch_case_insensitive t r : dispatch_word (upper t :: r) = dispatch_word (t :: r).
+Proof. unfold dispatch_word. rewrite upper_idem. reflexivity. Qed.
+
+(* non-vacuity *)
+Example lex_example :
+  lex [lit "SADI 0.02 C1 C2 = ! first = part"; lit "   C3 C4"; lit ""; lit " indented comment"; lit "fvar 1.0 ! a=b"; lit "C1 1 0 0 0"]
+  = [[lit "SADI"; lit "0.02"; lit "C1"; lit "C2"; lit "C3"; lit "C4"]; [lit "fvar"; lit "1.0"]; [lit "C1"; lit "1"; lit "0"; lit "0"; lit "0"]].
+Proof. vm_compute. reflexivity. Qed.
